@@ -137,6 +137,7 @@ class AsyncHarness:
         self.record_settings = rec
         self.gs0 = self.graph.init(jax.random.PRNGKey(seed))
         self.graph.warmup(self.gs0, jit_step=jit_step)
+        self.jit_step = jit_step
         self.seed = seed
 
     def initial(self):
@@ -189,7 +190,7 @@ class AsyncHarness:
         return res
 
 
-def run_history(h: "AsyncHarness", history, wd=None, on_boundary=None, eps0=0, fixed_gs_eps=None, dirty=False):
+def run_history(h: "AsyncHarness", history, wd=None, on_boundary=None, eps0=0, fixed_gs_eps=None, dirty=False, vary_rng=False):
     """Execute a call history on the harness' AsyncGraph.
 
     history: list of calls: "reset", "step", "step!" (override with own result), "run", "stop".
@@ -213,6 +214,13 @@ def run_history(h: "AsyncHarness", history, wd=None, on_boundary=None, eps0=0, f
         probes.LOG.clear()
         gs_eps = eps if fixed_gs_eps is None else fixed_gs_eps
         h.gs0 = h.gs0.replace(eps=onp.int32(gs_eps))
+        if vary_rng:
+            # every episode starts from its own per-node rng (so sampled delays, hence timings and compiled run masks, differ between the
+            # episodes of one experiment); the episode keeps its initial graph state for the compiled replay (C01)
+            from flax.core import FrozenDict
+            if not hasattr(h, "gs0_base_rng"):
+                h.gs0_base_rng = h.gs0.rng
+            h.gs0 = h.gs0.replace(rng=FrozenDict({k: jax.random.fold_in(v, eps) for k, v in h.gs0_base_rng.items()}))
         if dirty and eps % 2 == 1:
             # a user-supplied initial graph state need not carry seq 0 / ts 0 (e.g. the final state of an earlier episode);
             # the runtime stamps every step with its own tick and start time
@@ -223,6 +231,8 @@ def run_history(h: "AsyncHarness", history, wd=None, on_boundary=None, eps0=0, f
             from flax.core import FrozenDict
             h.gs0 = h.gs0.replace(seq=FrozenDict({k: onp.int32(0) for k in h.nodes}), ts=FrozenDict({k: onp.float32(0.0) for k in h.nodes}))
         cur = dict(style=style, nsteps=0, override=False, sss=[], calls=[], eps=eps, gs_eps=gs_eps, noexec_ticks=[])
+        if vary_rng:
+            cur["gs0"] = h.gs0
 
     for call in history:
         ncalls += 1
